@@ -7,7 +7,7 @@ import pipe
 
 ID = "C03"
 MODULE = "C03"
-IMPORTS = "Bytes RustInt Range CacheControl Cache CacheProofs Fixture CacheX CacheXProofs CacheXWitness CacheKey CacheKeyProofs RuleSet CacheRules CacheRulesProofs CacheReachProofs CacheFixtureProofs"
+IMPORTS = "Bytes RustInt Range CacheControl Cache CacheProofs Fixture CacheX CacheXProofs CacheXWitness CacheKey CacheKeyProofs RuleSet CacheRules CacheRulesProofs CacheReachProofs CacheFixtureProofs CacheQmProofs"
 PROFILES = ("dev",)
 MAX_NOT_EXECUTED = 4      # timed histories that could not be run within their slack after 3 x 3 attempts (set per tier in generate); everything else always runs
 _PINS = json.load(open(os.path.join(os.path.dirname(os.path.abspath(__file__)), "pins", "C03.json")))
@@ -17,7 +17,8 @@ THEOREMS = [(n, _PINS[n]) for n in ("cache_transparent", "cache_hit_same_class",
                                     "vary_rules_most_specific", "vary_exact_rule_wins", "vary_longest_pattern_wins",
                                     "length_first_shadows_exact_refuted",
                                     "cache_transparent_reachable", "fixture_honours_contract", "fixture_cache_transparent",
-                                    "override_poisons_refuted", "stream_vary_refuted", "qm_variant_refuted")]
+                                    "override_poisons_refuted", "stream_vary_refuted", "qm_variant_refuted",
+                                    "stored_variant_keyed_by_what_it_depends_on", "qm_response_never_under_path_key")]
 RULE = ("histories of requests/clears/waits against kvarn::handle_cache in process (harness/src/c04x.rs): (a) host with response cache vs. the Coq cache "
         "model Model/CacheX.v (component pipex.run; correspondence: status, vary / x-h / last-modified presence, decoded body, identity body, stream, "
         "handler invocation log per request), (b) host without response cache vs. the model run with cache off, (c) oracle real-vs-model: every reply "
@@ -99,7 +100,11 @@ LEVEL_TEXT = ("Coq theorem cache_transparent over the full cache model (streams,
               "model of the cache-less host (pipex.run_nocache, the oracle) answer alike — the hypothesis of cache_transparent is discharged for the "
               "very model the code is compared with; not for configurations with extended (switch / stream) handlers. Three defects of the code before its repair are "
               "proved as witnesses on the faithful old model (override_poisons_refuted: an internal route's answer stored under the page's key; "
-              "qm_variant_refuted: a QueryMatters variant joined a path-keyed entry and was served for every query; stream_vary_refuted). Tied to the repo worktree by a differential run of the real kvarn::handle_cache against the extracted model on "
+              "qm_variant_refuted: a QueryMatters variant joined a path-keyed entry and was served for every query; stream_vary_refuted). "
+              "stored_variant_keyed_by_what_it_depends_on / qm_response_never_under_path_key: after ANY history every stored variant was computed for a "
+              "GET/HEAD request of that vary tuple whose looked-up URI has the path of its Path key — and is then not query-dependent — or the path and "
+              "query of its PathQuery key; in particular a QueryMatters response is never held by the path-keyed entry every query falls back to, whether "
+              "or not its request carried a query (the seeded change C03-10 as a model property; fixture example c03_ex_qm_queryless_variant). Tied to the repo worktree by a differential run of the real kvarn::handle_cache against the extracted model on "
               "generated histories, for hosts with and without the response cache, and by the real-vs-real comparison of the two hosts.")
 LEVEL_NOTE = ("Trusted: Coq kernel; extraction (sample re-checked in-kernel); hand transcription of handle_cache into Model/CacheX.v validated by the "
               "differential run; moka as a finite map; sequential histories. No axioms.")
